@@ -283,6 +283,14 @@ pub fn check_map_k(m1: &Beatmap, open_k1: bool, open_k3: bool, open_k10: bool) -
             if a.start_time != b.start_time || std::mem::discriminant(&a.kind) != std::mem::discriminant(&b.kind) {
                 return Err(format!("hit object {i} is read back as a different record: {:?} at {} vs {:?} at {}", std::mem::discriminant(&a.kind), a.start_time, std::mem::discriminant(&b.kind), b.start_time));
             }
+            // a slider's control points are part of its record: outside the shapes the format cannot carry
+            // unambiguously (C02's finding K5, consecutive Catmull segments) they are read back as written
+            if let (HitObjectKind::Slider(p), HitObjectKind::Slider(q)) = (&a.kind, &b.kind) {
+                let (c1, c2) = (p.path.control_points(), q.path.control_points());
+                if c1 != c2 && !crate::props::c02::k5_shape(c1) && !crate::oracle::roundtrip::has_consecutive_catmull(c1) {
+                    return Err(format!("slider {i}: the control points are misread when the encoded line is read back: written from {:?}, read {:?}", c1, c2).chars().take(900).collect());
+                }
+            }
         }
     }
     let mut labels = vec![];
